@@ -664,6 +664,6 @@ def run(ctx):
         "sin/cos of half angles are libm results passed to the model as arguments (constrained by c^2+s^2=1 in the theorems); sqrt is modelled (IEEE exact)",
         "isnormal() is modelled by classify in binary64 and by x<>0 over R",
         "unit table values are read as exact rationals from the decimal text of rebound/units.py; Python evaluates them in binary64, tied within 2^-49 relative",
-        "searcher inputs keep vector magnitudes within 1e-100..1e100 (squared lengths neither overflow nor underflow); zero-length vectors are excluded (NaN by design)",
+        "searcher inputs keep vector magnitudes within about 1e-150..1e150 (squared lengths stay normal doubles; both ends are exercised); zero-length vectors are excluded (NaN by design); the bit-exact model comparison also runs outside this range",
         "move_to_hel leaves variational particles untouched (documented in the source comment); the model and the searcher check exactly that",
     ]
